@@ -139,6 +139,7 @@ func c14RunBytes(c *core.Ctx, h *c14Helper, b []byte) {
 	c.Distinct(core.Hash64(h.name, b), len(b) > h.min && len(b) >= 2)
 	below := len(b) < h.min
 	in := append([]byte{}, b...)
+	c.SetSub("helper", func() any { return c14Case{Helper: h.name, Hex: hexs(in)} }) // a hang is reported with this input
 	pi := core.Try(func() { h.fn(in) })
 	if pi == nil {
 		return
@@ -154,6 +155,7 @@ func c14RunBytes(c *core.Ctx, h *c14Helper, b []byte) {
 
 func c14RunText(c *core.Ctx, h *c14Helper, s string) {
 	c.Distinct(core.Hash64(h.name, "text", s), len(s) >= 2)
+	c.SetSub("helper", func() any { return c14Case{Helper: h.name, Text: s, IsText: true} })
 	pi := core.Try(func() { h.text(s) })
 	if pi != nil {
 		c.FailCase(h.name+"|"+pi.Key(), fmt.Sprintf("%s(%q) panics: %s", h.name, s, pi.Msg), "helper", c14Case{Helper: h.name, Text: s, IsText: true})
@@ -239,6 +241,33 @@ func c14Run(c *core.Ctx) {
 			maxFull := 6
 			if thorough {
 				maxFull = 7
+			}
+			// length 4 (thorough: and 5) over the alphabet read from the helper's current source (sharded by the first
+			// symbol of alphaLong: each shard takes the source symbols congruent to its index)
+			{
+				src := c14SourceAlphabet(h.name, alphaLong)
+				top4 := 4
+				if thorough && len(src) <= 40 {
+					top4 = 5
+				}
+				for l := 4; l <= top4; l++ {
+					buf := make([]byte, l)
+					var rec func(pos int)
+					rec = func(pos int) {
+						if pos == l {
+							run(buf)
+							return
+						}
+						for _, v := range src {
+							buf[pos] = v
+							rec(pos + 1)
+						}
+					}
+					for si := ai; si < len(src); si += len(alphaLong) {
+						buf[0] = src[si]
+						rec(1)
+					}
+				}
 			}
 			for l := 4; l <= maxFull; l++ {
 				buf := make([]byte, l)
@@ -497,7 +526,7 @@ func init() {
 			if tier == "thorough" {
 				l3 = "every byte string of length 3 (all 2^24)"
 			}
-			return "per helper (35 byte-input helpers incl. the nasType.MobileIdentity5GS / DNN text getters, 4 text-input variants): every byte string of length 0..2, " + l3 + ", every string of length 4..6 (7 thorough) over an 8-value branch-constant alphabet, lengths up to 12 (24) as identity-type octet x fill x single deviation, and the <=2-mutation neighbourhood (every truncation, every single-octet replacement by all 256 values, deletions, insertions, pairs of replacements, every valid prefix followed by a constant-filled tail of 1..24 octets) of 12 valid encodings, and the unit-repetition family (n copies of a length-prefixed unit of 0, 1, 2, 3, 4, 5 or 8 octets — every n that fits into 255 octets, thinned above 40 in the quick tier — followed by 0..2 copies of each other unit, bare, behind a leading 00 / 01 octet, and cut one octet short: limits that depend on the number of entries); text variants over all strings of length <=3 over {0,9,a,f,g,-,é} and <=2 mutations of valid texts. Oracle: returns without panic (recover), terminates and stays within the heap limit (worker watchdog). Element-typed helpers are judged on lengths the decoders can deliver; shorter inputs are counted separately."
+			return "per helper (35 byte-input helpers incl. the nasType.MobileIdentity5GS / DNN text getters, 4 text-input variants): every byte string of length 0..2, " + l3 + ", every string of length 4..6 (7 thorough) over an 8-value branch-constant alphabet, every string of length 4 (thorough: 5) over the alphabet read from the helper's current source (every integer literal 0..255 and character literal of the nasConvert package resp. the element's file, plus the fixed alphabet), lengths up to 12 (24) as identity-type octet x fill x single deviation, and the <=2-mutation neighbourhood (every truncation, every single-octet replacement by all 256 values, deletions, insertions, pairs of replacements, every valid prefix followed by a constant-filled tail of 1..24 octets) of 12 valid encodings, and the unit-repetition family (n copies of a length-prefixed unit of 0, 1, 2, 3, 4, 5 or 8 octets — every n that fits into 255 octets, thinned above 40 in the quick tier — followed by 0..2 copies of each other unit, bare, behind a leading 00 / 01 octet, and cut one octet short: limits that depend on the number of entries); text variants over all strings of length <=3 over {0,9,a,f,g,-,é} and <=2 mutations of valid texts. Oracle: returns without panic (recover), terminates and stays within the heap limit (worker watchdog). Element-typed helpers are judged on lengths the decoders can deliver; shorter inputs are counted separately."
 		},
 		Assumptions: []string{
 			"element-typed helpers (MobileIdentity5GS getters: >= 4 octets, DNN: >= 1, fixed-size time elements) are judged on decoder-deliverable lengths only",
